@@ -111,6 +111,8 @@ fn call(oracle: &str, v: &Value) -> Value {
         #[cfg(feature = "lsp")]
         "incan::multifile_index" | "incan::multifile_promotion" => c05::multifile_module(v),
         #[cfg(feature = "lsp")]
+        "incan::fstring_operands" => c05::fstring_operands(v),
+        #[cfg(feature = "lsp")]
         "lsp::diagnostic_range" => c05::diagnostic_range(v),
         #[cfg(feature = "lsp")]
         "lsp::server_ranges" => server::server_ranges(v),
@@ -746,6 +748,40 @@ mod c05 {
                         "inside an imported module the generated code is the same as in a single-file program (typed lowering)")
             }
             Ok(Err(m)) => verdict(false, json!({"front_end_error": m}), json!(musts), &echo, "the two-module program must compile"),
+            Err(m) => verdict(false, json!({"panicked": m}), json!(musts), &echo, "front end must not panic"),
+        }
+    }
+
+    /// C04 / C07 bounded stand-in for operands inside f-strings: two f-strings in one function, the first over ints, the second
+    /// over floats (sub-expressions of f-strings are lexed on their own; their spans key the checker's type map and must
+    /// not collide): each expression must get the helper / the promotion for ITS operands' types.
+    pub fn fstring_operands(v: &Value) -> Value {
+        let ops = ["%", "//", "/", "*", "+", "-"];
+        let op = ops[v["op"].as_u64().unwrap_or(0) as usize % ops.len()];
+        let swap = v["swap"].as_bool().unwrap_or(false);      // floats first, ints second
+        let (first, second) = if swap { (format!("x {} y", op), format!("a {} b", op)) } else { (format!("a {} b", op), format!("x {} y", op)) };
+        let (m1, m2) = if swap { (format!("n {} 2.5", op), format!("r {} 2.5", op)) } else { (format!("r {} 2.5", op), format!("n {} 2.5", op)) };
+        let src = format!("def f(a: int, b: int, x: float, y: float, n: int, r: float) -> None:\n    println(f\"{{{}}}\")\n    println(f\"{{{}}}\")\n    println(f\"{{{}}}\")\n    println(f\"{{{}}}\")\n\ndef main() -> None:\n    pass\n", first, second, m1, m2);
+        let got = guarded(|| {
+            let tokens = incan::frontend::lexer::lex(&src).map_err(|e| format!("lex: {:?}", e.first().map(|x| x.message.clone())))?;
+            let prog = incan::frontend::parser::parse(&tokens).map_err(|e| format!("parse: {:?}", e.first().map(|x| x.message.clone())))?;
+            incan::IrCodegen::new().try_generate(&prog).map_err(|e| format!("codegen: {}", e))
+        });
+        let musts: Vec<String> = match op {
+            "%" => vec!["py_mod_i64(a,b)".into(), "py_mod_f64(x,y)".into(), "py_mod_f64((n)asf64,2.5)".into(), "py_mod_f64(r,2.5)".into()],
+            "//" => vec!["py_floor_div_i64(a,b)".into(), "py_floor_div_f64(x,y)".into(), "py_floor_div_f64((n)asf64,2.5)".into(), "py_floor_div_f64(r,2.5)".into()],
+            "/" => vec!["py_div((a)asf64,(b)asf64)".into(), "py_div(x,y)".into(), "py_div((n)asf64,2.5)".into(), "py_div(r,2.5)".into()],
+            _ => vec![format!("a{}b", op), format!("x{}y", op), format!("(n)asf64{}2.5", op), format!("r{}2.5", op)],
+        };
+        let echo = { let mut a = v.clone(); a["source"] = json!(src); a };
+        match &got {
+            Ok(Ok(code)) => {
+                let flat: String = code.chars().filter(|c| !c.is_whitespace()).collect::<String>().replace("2.5f64", "2.5").replace(",)", ")");
+                let missing: Vec<&String> = musts.iter().filter(|m| !flat.contains(m.as_str())).collect();
+                verdict(missing.is_empty(), json!({"missing_in_generated_code": missing}), json!(musts), &echo,
+                        "an arithmetic expression inside an f-string gets the helper / promotion for its own operands' types")
+            }
+            Ok(Err(m)) => verdict(false, json!({"front_end_error": m}), json!(musts), &echo, "the program must compile"),
             Err(m) => verdict(false, json!({"panicked": m}), json!(musts), &echo, "front end must not panic"),
         }
     }
@@ -1444,6 +1480,7 @@ fn search(oracle: &str, seed: u64, budget: u64, skip: &[String]) -> Value {
                 json!({"s": d, "start": st, "end": st})
             }
             "lsp::span_to_range" | "syntax::get_line_info" => { let a = roff(&mut r, &s); let b = roff(&mut r, &s); json!({"s": s, "start": a, "end": b}) }
+            "incan::fstring_operands" => { let k = n % 12; json!({"op": k % 6, "swap": k / 6 == 1}) }
             "incan::multifile_index" => { let k = n % 8; json!({"kind": k % 4, "nested": k / 4 == 1}) }
             "incan::multifile_promotion" => { let k = n % 6; json!({"kind": 4 + k % 3, "nested": k / 3 == 1}) }
             "incan::static_type_sources" => { let k = n % 140; json!({"op": k % 7, "ann_float": (k / 7) % 2 == 1, "src": k / 14}) }
